@@ -66,6 +66,7 @@ def main():
         if prev is not None and prev.get("baseline_ok") and prev.get("demo_ok"):
             res.update({k: prev[k] for k in ("applies", "baseline", "baseline_ok", "demo_clean_rc", "demo_patched_rc", "demo_ok",
                                              "demo_clean_tail", "demo_patched_tail") if k in prev})
+            res["first_evaluation_checks"] = prev.get("first_evaluation_checks", prev.get("checks"))
             rc, out, err = sh("git -C %s apply %s" % (wt, patch))
             if rc != 0:
                 res["applies"] = False
@@ -87,7 +88,8 @@ def main():
             res["demo_ok"] = (rc0 == 0 and rc1 == 0)
             res["demo_clean_tail"], res["demo_patched_tail"] = out0[-300:], out1[-300:]
             sh("rm -f %s/ciderpress/lib/lib*.so" % wt)
-        res["checks"] = {}
+        res["checks"] = dict(prev.get("checks") or {}) if prev is not None else {}
+        res["checked_props"] = sorted(set(props) | set(res["checks"]))
         for pid in props:
             t0 = time.time()
             env = dict(os.environ, VERIF_REPO=wt, VERIF_SEED=seed, VERIF_NO_SHRINK="1",
